@@ -225,6 +225,10 @@ def instantiate(d, encoding="utf-8"):
         return range(d[1])
     if k == "iter":
         return Iter([instantiate(x, encoding) for x in d[1]])
+    if k == "set":
+        return set(instantiate(x, encoding) for x in d[1])
+    if k == "frozenset":
+        return frozenset(instantiate(x, encoding) for x in d[1])
     if k == "userlist":
         import collections
         return collections.UserList(instantiate(x, encoding) for x in d[1])
